@@ -87,9 +87,15 @@ def make_files(rng, ctx):
                                 + H.syscall('BSC_getppid', (0, 0, 0, 0), (0, 1, 0, 0))
                                 + H.newthread_pair(5000 + k, 100 * (k + 1), b'again%d' % k)
                                 + H.syscall('BSC_getuid', (0, 0, 0, 0), (0, 501, 0, 0)))
+        # texts split over several records (a path of three lookup records inside an open, a global string of three): a
+        # cut on a record boundary inside them ends the stream normally, with the text half collected
+        tail += H.on_thread(13, H.syscall('BSC_open', (0, 0, 0x1a4, 0), (0, 5, 0, 0),
+                                          H.lookup(0xfeed, b'/private/var/mobile/Library/Caches/com.apple.demo/Cache.db-wal'))
+                            + H.global_string(0x77, b'a global string that needs more than one record to be stored, three in fact')
+                            + H.dlopen(0x77))
         cut = ctx.pick(16, 40)
         evs = evs[:cut] + H.materialize(tail, t0=evs[min(cut, len(evs)) - 1].timestamp + 7)
-        recs = gen.events_to_records(evs)[:ctx.pick(40, 64)]
+        recs = gen.events_to_records(evs)[:ctx.pick(60, 90)]
         # the map declares the pid the threads' own exec / new-thread records name, so that a name string renames the
         # process of the thread that emitted it (the process column of already reported lines must not change)
         entries = [(tid, 100 * (k + 1), b'proc%d' % k, b'') for k, tid in enumerate((11, 12, 13))]
